@@ -78,10 +78,9 @@ theorem getters_after_validate (c : Claims) (h : validate c = .ok ()) (g : Gette
 theorem getter_values_conformant (g : Getter) (c : Claims) (v : Val) (h : Model.get g c = .ok v) :
     ConformantVal c.prof c.canonical g v := get_ok_conformant g c v h
 
-/-- The verdict is one of: accepted, or rejected with an error — validation of a
-    claims-set without nil component entries never panics. -/
-theorem validate_total (c : Claims) (hn : ∀ e ∈ c.sw.elems, e ≠ none) :
-    ∀ s, validate c ≠ .panic s :=
-  noPanic_validateWith _ c hn
+/-- The verdict is one of: accepted, or rejected with an error — validation never panics,
+    nil component entries included (fix 41aaac8). -/
+theorem validate_total (c : Claims) : ∀ s, validate c ≠ .panic s :=
+  noPanic_validateWith _ c
 
 end Psa.Props.C01
